@@ -316,6 +316,9 @@ frequent_items_sketch<T, W, H, E, A> frequent_items_sketch<T, W, H, E, A>::deser
     const auto total_weight = read<W>(is);
     const auto offset = read<W>(is);
     if (!is.good()) throw std::runtime_error("error reading from std::istream");
+    if (num_items > sketch.map.get_capacity()) {
+      throw std::invalid_argument("Possible corruption: num_items must not exceed the map capacity: " + std::to_string(num_items) + " > " + std::to_string(sketch.map.get_capacity()));
+    }
 
     // batch deserialization with intermediate array of items and weights
     using AllocW = typename std::allocator_traits<A>::template rebind_alloc<W>;
@@ -374,6 +377,9 @@ frequent_items_sketch<T, W, H, E, A> frequent_items_sketch<T, W, H, E, A>::deser
     ptr += copy_from_mem(ptr, total_weight);
     W offset;
     ptr += copy_from_mem(ptr, offset);
+    if (num_items > sketch.map.get_capacity()) {
+      throw std::invalid_argument("Possible corruption: num_items must not exceed the map capacity: " + std::to_string(num_items) + " > " + std::to_string(sketch.map.get_capacity()));
+    }
 
     ensure_minimum_memory(size, ptr - base + (sizeof(W) * num_items));
     // batch deserialization with intermediate array of items and weights
